@@ -15,6 +15,7 @@ publish = false
 [dependencies]
 s3s = {{ path = "{repo}/crates/s3s" }}
 s3s-policy = {{ path = "{repo}/crates/s3s-policy" }}
+s3s-fs = {{ path = "{repo}/crates/s3s-fs" }}
 tokio = {{ version = "1", features = ["rt", "macros", "time"] }}
 hyper = "1"
 http = "1"
